@@ -152,10 +152,18 @@ def r2(ctx):
         raise AnalysisError(f"compute_lambda_sum is not a two-branch function any more: {str(rt)[:100]}")
     scalar = matrix = None
     for g, v in rt.pieces:
-        if any(isinstance(x, Idx) and x.base == lam for x in tm.subterms(v)):
-            matrix = (g, v)
-        else:
+        gparts = g.parts if isinstance(g, tm.And) else [g]
+        is_scalar_guard = any(isinstance(p_, tm.Cmp) and p_.op == "==" and any(isinstance(x, App) and x.fn == "numpy.ndim" for x in tm.subterms(p_))
+                              or (isinstance(p_, App) and p_.fn in ("numpy.isscalar", "builtins.isinstance") and not any(
+                                  isinstance(x, Sym) and x.name == "numpy.ndarray" for x in tm.subterms(p_))) for p_ in gparts)
+        if is_scalar_guard:
             scalar = (g, v)
+        else:
+            matrix = (g, v) if matrix is None or any(isinstance(x, Idx) and x.base == lam for x in tm.subterms(v)) else matrix
+    if len(rt.pieces) != 2:
+        ctx.fail(fi, "compute_lambda_sum has more than the scalar and the matrix return", role="matrix:form",
+                 expected="two branches", found=f"{len(rt.pieces)} return pieces")
+        return
     if scalar is None or matrix is None:
         raise AnalysisError("scalar / matrix branches of compute_lambda_sum not recognised")
     # scalar: coefficient of lambda
@@ -255,3 +263,19 @@ def r4(ctx):
         ctx.ok(fi, f"`{unparse(n)}` widens the hyper-parameter before scalar arithmetic", line=n.lineno, role=f"widen@{short(fi.qualname)}")
     if not ok_sites and seen == 0:
         ctx.ok("package", "no scalar-only arithmetic on a raw hyper-parameter", role="none")
+
+
+@rule("C18", "R5", "OWN", "a hyper-parameter object handed in by the caller is never edited in place (array forms must not diverge from scalar forms)", floor=2)
+def r5(ctx):
+    from .own import describe, ext_writes, ownership
+    ana = ctx.ana
+    for q in ("front_end.ticc_labels", "front_end.ticc_joint_labels", "admm.front_end.admm_optimize_theta"):
+        fi = ana.func(q)
+        oa = ownership(ana, q)
+        for p in [p for p in fi.params if p in HYPER]:
+            hits = [(m, objs) for m, objs in ext_writes(oa, p)]
+            for m, objs in hits:
+                ctx.fail(fi, f"hyper-parameter `{p}` may be modified in place at {describe(m)}: an array-valued form is changed where a scalar is only rebound",
+                         role=f"inplace:{short(q)}:{p}:{short(m.func.qualname)}:{m.kind}", expected="new objects only", found=", ".join(map(str, objs))[:100])
+            if not hits:
+                ctx.ok(fi, f"`{p}` is never written in place along {short(q)}", role=f"inplace:{short(q)}:{p}")
